@@ -23,7 +23,8 @@ RULE = ("the whole configuration lattice is enumerated: {TripleStream,QuadStream
         "sink.serialize; rdflib Graph.serialize(stream=|options=), flat_stream_to_file, grouped_stream_to_file; generator entry "
         "points also with the frames gathered in a list before being written; plus two flat_stream_to_file calls that share one "
         "options object and overlap (the inner call made from inside the outer call's input generator); plus the store/sink entry "
-        "points with namespace declarations on (1 or 6 bindings) x frame size {1,3,5,12,250}} x inputs of "
+        "points with namespace declarations on (1 or 6 bindings) x frame size {1,3,5,12,250}; explicit flows also handed over as "
+        "copy.copy(flow) and inside a deep-copied options object} x inputs of "
         "1, 3, 5 statements with fresh terms and 4, 6 statements re-using terms (single-row statements). Oracle for every configuration that returns without raising: every stream the entry point "
         "created or was given has an empty flow, and the bytes decode (pyjelly parser and reference decoder) to the input "
         "(documented quads->TRIPLES projection applied). Raising is always acceptable. Non-trivial = distinct accepted "
@@ -106,6 +107,10 @@ def enumerate_configs(tier: str):
                 c = {"entry": ename, "integration": integ, "physical": phys, "arity": arity, "logical": logical,
                      "delimited": delimited, "frame_size": fs, "flow": fk, "flow_logical": fl, "n": n, "collect": False}
                 yield c
+                if fk != "inferred" and n == 3:
+                    # the flow reaches the stream as a COPY: copy.copy(flow), or a deep copy of an options template
+                    yield dict(c, flow_via="copy")
+                    yield dict(c, flow_via="deepcopy-options")
                 if ename in ("g_stream_frames_sink", "g_stream_frames_gen", "r_stream_frames_gen") and n in (5, -6):
                     # a batching caller gathers the frames of the generator entry point before writing them
                     yield dict(c, collect=True)
@@ -160,6 +165,12 @@ def run_config(c: dict) -> dict:
                 params=StreamParameters(delimited=c["delimited"], generalized_statements=True, rdf_star=True,
                                         namespace_declarations=bool(binds)),
                 lookup_preset=LookupPreset.small())
+            if c.get("flow_via") == "copy":
+                import copy
+                options.flow = copy.copy(flow)
+            elif c.get("flow_via") == "deepcopy-options":
+                import copy
+                options = copy.deepcopy(options)
             cfg = {"integration": c["integration"], "physical": c["physical"]}
             write = write_delimited if c["delimited"] else write_single
             e = c["entry"]
